@@ -178,13 +178,24 @@ def run_shard(shard, tier, acc, oracle):
         tree.rmtree(root)
 
 
+def dup_spec():
+    """A hand-edited ruleset: values listed twice inside one group of equal probability (the same value appended again). Whatever a loader
+    does with the repeat, it must do the same in every process."""
+    spec = dict(TERMINALS[0])
+    spec['D'] = {1: [('1', .4), ('2', .15), ('3', .15), ('4', .15), ('2', .15)], 2: [('12', .5), ('21', .25), ('34', .25), ('21', .25), ('56', .25)]}
+    spec['A'] = {1: [('a', .5), ('b', .25), ('c', .25), ('b', .25)], 2: [('ab', .5), ('cd', .5)]}
+    spec['grammar'] = [('A1D1', .5), ('D2', .3), ('D1', .2)]
+    spec['prince'] = PRINCE
+    return spec
+
+
 def run_hashseed(tier, acc):
     """Determinism across processes: the real CLI in two subprocesses with different PYTHONHASHSEED must print the same stream."""
     import subprocess
     import sys
     td = tree.scratch_tree()
     n = 0
-    for idx, spec in enumerate(specs('quick')):
+    for idx, spec in enumerate([dup_spec()] + list(specs('quick'))):
         if idx % 23:
             continue
         R.write_ruleset(os.path.join(td, 'Rules', 'v'), spec)
